@@ -12,7 +12,8 @@ PROPS = {
         'assumptions': COMMON_ASSUME + ['committee ids pairwise distinct (SPI contract of Membership)', 'total weight < 2^64 (hypothesis of the property)'],
     },
     'C18': {
-        'engines': [{'name': 'leader'}],
+        'engines': [{'name': 'leader'}, {'name': 'world', 'quick_args': ['-n', '70'], 'thorough_args': ['-n', '1200']}],
+        'corr_modules': ['Term'],
         'trusted_base': ['theorems in coq/props/C18.v about coq/theories/Leader.v'],
         'assumptions': COMMON_ASSUME,
     },
